@@ -1,7 +1,7 @@
 SPECIFICATION Spec
 CONSTANTS
   NFaults = 1
-  MaxWrap = 1
+  MaxWrap = 0
   Emitting = TRUE
 INVARIANT DecTotal
 INVARIANT InvEmit
